@@ -3,7 +3,7 @@
 From Coq Require Import ZArith NArith String List Bool.
 From Bignums Require Import BigZ.
 From V Require Import Lib.Num Lib.FermatZ Lib.Hex Prim.Bls12 Model.BlsCodec Spec.ZcashCodec
-  Proofs.BytesZ Proofs.CodecProofs Proofs.CodecE2Proofs Proofs.Primes.
+  Proofs.BytesZ Proofs.CodecProofs Proofs.CodecE2Proofs Proofs.CodecRefine Proofs.Primes.
 Import ListNotations.
 Open Scope Z_scope.
 
@@ -72,6 +72,32 @@ Theorem C05_public_key_decode_canonical :
     List.length b = 96%nat /\ encode_e2 P = b /\ e2_in_G2 ZNum pZ (to_j2 ZNum pZ P) = true.
 Proof. exact (pk_decode_canonical bls_p_prime). Qed.
 Print Assumptions C05_public_key_decode_canonical.
+
+(* The correspondence runs execute the BigZ instance of the same generic definitions.  These
+   restate the main facts for exactly the functions Corr/C05Corr.v evaluates (carrier BigZ, [pB], [rB]);
+   they follow from the refinement theorems of Proofs/CodecRefine.v (any faithful carrier computes,
+   through n_to_Z, what the Z instance computes: field operations, both square roots, Jacobian
+   arithmetic incl. the [r]P membership tests, all readers and writers). *)
+Theorem C05_executed_public_key_decoder_is_the_Z_model :
+  forall b, option_map (apt_map (f2Z BNum)) (decode_public_key BNum pB b) = decode_public_key ZNum pZ b.
+Proof. exact bigZ_decode_public_key. Qed.
+Print Assumptions C05_executed_public_key_decoder_is_the_Z_model.
+
+Theorem C05_executed_public_key_canonical :
+  forall b P, wf b -> decode_public_key BNum pB b = Some P -> e2_write_bytes BNum P = b.
+Proof. exact (bigZ_public_key_canonical bls_p_prime). Qed.
+Print Assumptions C05_executed_public_key_canonical.
+
+Theorem C05_executed_signature_point_canonical :
+  forall b P, wf b -> e1_read_bytes BNum pB b = (VALID, P) -> e1_write_bytes BNum P = b.
+Proof. exact (bigZ_e1_canonical bls_p_prime). Qed.
+Print Assumptions C05_executed_signature_point_canonical.
+
+Theorem C05_executed_private_key_range :
+  forall b v, wf b -> decode_private_key BNum rB b = Some v ->
+    List.length b = 32%nat /\ BigZ.to_Z v = osZ b /\ 1 <= BigZ.to_Z v < rZ.
+Proof. exact bigZ_private_key_accepts_iff. Qed.
+Print Assumptions C05_executed_private_key_range.
 
 (* The full statement "accepted BLS public keys are exactly the canonical encodings
    IN THE ZCASH FORMAT" is false of the faithful model: the coefficients of F_p^2 are
